@@ -24,6 +24,65 @@ def cps(s):
     return [ord(c) for c in s]
 
 
+EXT = ('dt', 'date', 'dec')       # leaf kinds beyond the model: exercised by T3 only (as arguments), dt also as out-header
+
+
+def native_leaf(v):
+    """python value of a leaf in the harness's value encoding"""
+    import datetime as pydt
+    from decimal import Decimal
+    import pytz
+    if 'dt' in v:
+        y, mo, d, h, mi, s, us, tz = v['dt']
+        if tz is None:
+            tzinfo = None
+        elif tz == 0:
+            tzinfo = pytz.utc if us % 2 == 0 else pydt.timezone.utc
+        else:
+            tzinfo = pytz.FixedOffset(tz) if s % 2 == 0 else pydt.timezone(pydt.timedelta(minutes=tz))
+        return pydt.datetime(y, mo, d, h, mi, s, us, tzinfo)
+    if 'date' in v:
+        return pydt.date(*v['date'])
+    if 'dec' in v:
+        return Decimal(v['dec'])
+    if 'b' in v:
+        return v['b']
+    if 'i' in v:
+        return int(v['i'])
+    return uncps(v['s'])
+
+
+def val_of_native(x):
+    import datetime as pydt
+    from decimal import Decimal
+    if x is None:
+        return None
+    if isinstance(x, bool):
+        return {'b': x}
+    if isinstance(x, int):
+        return {'i': str(x)}
+    if isinstance(x, str):
+        return {'s': cps(x)}
+    if isinstance(x, pydt.datetime):
+        off = x.utcoffset()
+        tz = None if off is None else (off.days * 86400 + off.seconds) // 60
+        return {'dt': [x.year, x.month, x.day, x.hour, x.minute, x.second, x.microsecond, tz]}
+    if isinstance(x, pydt.date):
+        return {'date': [x.year, x.month, x.day]}
+    if isinstance(x, Decimal):
+        return {'dec': format(x, 'f')}
+    return {'?': repr(x)}
+
+
+def http_date(v):
+    """the RFC 1123 date of the instant a datetime leaf denotes (naive = GMT): independent of spyne"""
+    import datetime as pydt
+    from email.utils import format_datetime
+    x = native_leaf(v)
+    u = x.replace(tzinfo=pydt.timezone.utc) if x.tzinfo is None else x.astimezone(pydt.timezone.utc)
+    return format_datetime(u, usegmt=True)
+
+
 def uncps(l):
     return ''.join(chr(c) for c in l)
 
@@ -32,14 +91,17 @@ def uncps(l):
 class Impl:
     """drives the real spyne objects; one instance per signature (list of root members)"""
     _cache = {}
+    _prims = {}
 
     def __init__(self, fields, cfg=None, ret=None, hdr_fields=None):
-        from spyne import Application, Service, rpc, ComplexModel, Array, Integer, Unicode, Boolean, ByteArray
+        from spyne import Application, Service, rpc, ComplexModel, Array, Integer, Unicode, Boolean, ByteArray, \
+            DateTime, Date, Decimal
         from spyne.model.complex import ComplexModelMeta
         from spyne.protocol.http import HttpRpc
         from spyne.server.wsgi import WsgiApplication
         self.fields = fields
-        self.P = {'int': Integer, 'str': Unicode, 'bool': Boolean, 'bytes': ByteArray}
+        self.P = {'int': Integer, 'str': Unicode, 'bool': Boolean, 'bytes': ByteArray, 'dt': DateTime, 'date': Date,
+                  'dec': Decimal}
         self.Array, self.ComplexModel, self.Meta = Array, ComplexModel, ComplexModelMeta
         self.classes = {}
         cfg = cfg or {'strict': False, 'soft': False, 'delim': cps('.')}
@@ -85,12 +147,20 @@ class Impl:
         t = f['t']
         inf = 'unbounded'
         if t['k'] != 'obj':
-            base = self.P[t['k']]
-            if not f['many']:
-                return base(min_occurs=f['min']) if f['min'] else base
-            if f.get('wrap') == 'array':
-                return self.Array(base)
-            return base(max_occurs=inf if f['max'] is None else f['max'], min_occurs=f['min'])
+            # customised primitives are shared by all signatures of a run (spyne keeps every variant of a
+            # type in per-class registries; thousands of throw-away variants make customize() slow)
+            pkey = (t['k'], f['many'], f.get('wrap'), f['min'], f['max'])
+            c = Impl._prims.get(pkey)
+            if c is None:
+                base = self.P[t['k']]
+                if not f['many']:
+                    c = base(min_occurs=f['min']) if f['min'] else base
+                elif f.get('wrap') == 'array':
+                    c = self.Array(base)
+                else:
+                    c = base(max_occurs=inf if f['max'] is None else f['max'], min_occurs=f['min'])
+                Impl._prims[pkey] = c
+            return c
         base = self.cls_of(t)
         if not f['many']:
             return base
@@ -112,13 +182,7 @@ class Impl:
             return {'l': [self.to_val(e, False, t) for e in x]}
         if t['k'] == 'obj':
             return {'o': [[f['n'], self.to_val(getattr(x, uncps(f['n']), None), f['many'], f['t'])] for f in t['fields']]}
-        if isinstance(x, bool):
-            return {'b': x}
-        if isinstance(x, int):
-            return {'i': str(x)}
-        if isinstance(x, str):
-            return {'s': cps(x)}
-        return {'?': repr(x)}
+        return val_of_native(x)
 
     def from_val(self, v, many, t):
         if v is None:
@@ -130,11 +194,7 @@ class Impl:
             for (n, fv), f in zip(v['o'], t['fields']):
                 setattr(inst, uncps(n), self.from_val(fv, f['many'], f['t']))
             return inst
-        if 'b' in v:
-            return v['b']
-        if 'i' in v:
-            return int(v['i'])
-        return uncps(v['s'])
+        return native_leaf(v)
 
     def root_val(self, args):
         return {'o': [[f['n'], self.to_val(a, f['many'], f['t'])] for f, a in zip(self.fields, args)]}
@@ -201,13 +261,7 @@ class Impl:
 
     @staticmethod
     def leaf_val(x):
-        if x is None:
-            return None
-        if isinstance(x, bool):
-            return {'b': x}
-        if isinstance(x, int):
-            return {'i': str(x)}
-        return {'s': cps(x)}
+        return val_of_native(x)
 
     def text_of(self, kind, x):
         return self.app.in_protocol.to_unicode(self.P[kind], x)
@@ -300,6 +354,7 @@ class Gen:
         self.pool = []      # finished classes (Ty json), reusable
         self.big_used = False
         self.budget = 120
+        self.ext = False    # also draw DateTime / Date / Decimal members (T3 only: outside the model)
 
     def fields(self, depth, n=None, top=False):
         rng = self.rng
@@ -320,7 +375,7 @@ class Gen:
                 mx = rng.choice([None, None, 2, 3, 20]) if wrap == 'occurs' else None
                 out.append(fld(nm, t, many, wrap, 0, mx))
             else:
-                kind = rng.choice(PRIMS)
+                kind = rng.choice(EXT) if (self.ext and rng.random() < 0.4) else rng.choice(PRIMS)
                 many = rng.random() < 0.3
                 wrap = rng.choice(['array', 'occurs']) if many else None
                 mx = rng.choice([None, 2, 5, 20]) if wrap == 'occurs' else None
@@ -347,6 +402,19 @@ class Gen:
                                          rng.randrange(-10 ** 6, 10 ** 6), rng.getrandbits(80)]))}
         if kind == 'bool':
             return {'b': rng.random() < 0.5}
+        if kind in ('dt', 'date'):
+            import datetime as pydt
+            d = pydt.date.fromordinal(rng.choice([rng.randrange(693596, 767010), 734869, 734868, 737484, 737485, 730120]))
+            d = rng.choice([d, d.replace(day=1), d.replace(month=12, day=31), d.replace(month=1, day=1)])
+            if kind == 'date':
+                return {'date': [d.year, d.month, d.day]}
+            tz = rng.choice([None, None, 0, 0, 180, -300, 330, -570, 840, -720, 60, -1, rng.randrange(-839, 840)])
+            h, mi = rng.choice([(0, 0), (23, 59), (1, 30), (12, 0), (rng.randrange(24), rng.randrange(60))])
+            return {'dt': [d.year, d.month, d.day, h, mi, rng.choice([0, 59, rng.randrange(60)]),
+                           rng.choice([0, 0, 500000, rng.randrange(10 ** 6)]), tz]}
+        if kind == 'dec':
+            return {'dec': rng.choice(['0', '1', '-1', '1.5', '-2.50', '100', '0.001', '12345678901234567890.123456789',
+                                       '%d.%02d' % (rng.randrange(-10 ** 6, 10 ** 6), rng.randrange(100))])}
         alphabet = ['a', 'b', 'Z', '0', ' ', '+', '&', '=', ';', '%', '[', ']', '[0]', '.', '_', '/', '?', '#', "'", '"',
                     'empty', 'é', 'ß', '✓', '中', '\U0001F600', ' ', '\x7f', '~', '-', '%41', '%zz', 'None', '\n']
         n = rng.choice([0, 1, 1, 2, 3, 5])
@@ -400,6 +468,10 @@ def strip_marker(v):
 
 
 def leaf_text(v):
+    if 'dt' in v or 'date' in v:
+        return native_leaf(v).isoformat()
+    if 'dec' in v:
+        return v['dec']
     if 'i' in v:
         return v['i']
     if 'b' in v:
@@ -462,7 +534,7 @@ UNRESERVED = set('ABCDEFGHIJKLMNOPQRSTUVWXYZabcdefghijklmnopqrstuvwxyz0123456789
 
 def render_qs(rng, pairs, style):
     """a query string for the pairs; style 0: quote(safe=''), 1: '+' for blanks and ';' separators mixed in,
-    2: everything escaped, lower-case hex, 3: brackets left bare"""
+    2: everything escaped, lower-case hex, 3: brackets left bare, 4: all characters a query may carry left bare"""
     def q(s, key):
         if style == 2:
             return ''.join('%%%02x' % b for b in s.encode('utf8'))
@@ -470,6 +542,10 @@ def render_qs(rng, pairs, style):
             return _quote(s, safe='').replace('%20', '+')
         if style == 3 and key:
             return _quote(s, safe='[]')
+        if style == 4:
+            # everything RFC 3986 allows in a query component left as it is (only the first '=' of a pair
+            # separates name and value)
+            return _quote(s, safe="[]:/?@!$'()*,." if key else "=:/?@!$'()*,.")
         return _quote(s, safe='')
     parts = ['%s=%s' % (q(k, True), q(v, False)) for k, v in pairs]
     if style == 1:
@@ -656,12 +732,18 @@ def run(ctx):
     t2_small(ctx, add)
     sigs = corpus()
     g = Gen(rng)
-    n_sig = 1500 if ctx.thorough else 300
+    n_sig = 900 if ctx.thorough else 300
     for i in range(n_sig):
         g.pool = g.pool[-6:]
+        g.ext = (i % 5 == 4)
+        if g.ext:
+            g.pool = []
         sigs.append(g.fields(rng.choice([0, 1, 2, 2, 3, 3, 4] if ctx.thorough else [0, 1, 2, 2, 3]), top=True))
     model_ok = f['tagScope'] == 'perBranch'
+    import gc
     for i, sig in enumerate(sigs):
+        if i % 25 == 0:
+            gc.freeze()     # the recorded queries are millions of small objects: keep them out of later collections
         if i and i % 100 == 0:
             ctx.log('%d signatures, %d queries' % (i, len(Q)))
         run_signature(ctx, g, sig, add, f, model_ok)
@@ -747,7 +829,10 @@ def run_signature(ctx, g, sig, add, facts, model_ok):
     ctx.hit('sig:delim=' + delim)
     if dup_cls:
         ctx.hit('sig:same-class-twice')
-    use_model = model_ok or not dup_cls
+    ext = has_feature(sig, lambda f: f['t']['k'] in EXT)
+    if ext:
+        ctx.hit('sig:extended-leaf-kinds(T3 only)')
+    use_model = (model_ok or not dup_cls) and not ext
     mf = model_fields(sig)
     base_cfg = {'strict': False, 'soft': False, 'delim': cps(delim)}
     # the member table
@@ -768,7 +853,7 @@ def run_signature(ctx, g, sig, add, facts, model_ok):
                 nperm = 1 if len(pairs) < 2 else (3 if ctx.thorough else 2)
                 for pi in range(nperm):
                     pp = pairs if pi == 0 else permute_pairs(rng, pairs)
-                    style = rng.choice([0, 0, 1, 2, 3])
+                    style = rng.choice([0, 0, 1, 2, 3, 4, 4])
                     qs = render_qs(rng, pp, style)
                     impl = get_impl(sig, cfg)
                     r, st, body = impl.get(qs)
@@ -999,8 +1084,10 @@ def t2_returns(ctx, g, add):
     """a single primitive return value: exact text / bytes, declared headers"""
     rng = ctx.rng
     hdrs_pool = [[], [fld('X-Count', P('int'))], [fld('X-Name', P('str')), fld('X-Flag', P('bool'))],
-                 [fld('Set-Thing', P('str')), fld('X-N', P('int')), fld('X-Many', P('str'), True, 'occurs', 0, None)]]
-    n = 120 if ctx.thorough else 40
+                 [fld('Set-Thing', P('str')), fld('X-N', P('int')), fld('X-Many', P('str'), True, 'occurs', 0, None)],
+                 [fld('Expires', P('dt')), fld('X-Name', P('str'))], [fld('Last-Modified', P('dt')), fld('Expires', P('dt'))]]
+    n = 300 if ctx.thorough else 90
+    t2_header_dates(ctx, g, add)
     for i in range(n):
         kind = rng.choice(['int', 'str', 'bool', 'bytes'])
         hf = rng.choice(hdrs_pool)
@@ -1028,7 +1115,8 @@ def t2_returns(ctx, g, add):
                 hv['o'].append([h['n'], v])
                 setattr(hdr_obj, uncps(h['n']), impl.from_val(v, h['many'], h['t']))
                 if v is not None:
-                    exp_hdrs += [(uncps(h['n']), leaf_text(x)) for x in (v['l'] if h['many'] else [v])]
+                    exp_hdrs += [(uncps(h['n']), http_date(x) if 'dt' in x else leaf_text(x))
+                                 for x in (v['l'] if h['many'] else [v])]
         impl.retval, impl.out_header = ret_native, hdr_obj
         r, st, body = impl.get('a=1')
         impl.retval, impl.out_header = None, None
@@ -1046,6 +1134,29 @@ def t2_returns(ctx, g, add):
             ctx.finding('return:' + kind, 'return value %r with out-header %r is sent as %r %r %r' % (
                 ret_native, hv, st.get('status'), hd, body[:80]),
                 {'op': 'return', 'kind': kind, 'ret': ret_json, 'hdrFields': hf, 'hdr': hv})
+
+
+def t2_header_dates(ctx, g, add):
+    """`_header_to_bytes` on DateTime values: naive, GMT (pytz.utc / timezone.utc) and aware in other zones, around
+    day, month and year boundaries. T2 against the model, T3 against an independent RFC 1123 rendering of the instant."""
+    from spyne.protocol.http import _header_to_bytes, HttpRpc
+    from spyne import DateTime
+    prot = HttpRpc()
+    fixed = [[2013, 1, 1, 0, 0, 0, 0, None], [2013, 1, 1, 10, 30, 0, 0, 0], [2013, 1, 1, 10, 30, 0, 1, 0],
+             [2013, 1, 1, 1, 30, 0, 0, 180], [2012, 12, 31, 22, 0, 1, 0, -300], [2020, 2, 29, 23, 30, 5, 7, -300],
+             [2021, 3, 1, 0, 15, 0, 0, 330], [2000, 2, 28, 20, 0, 0, 0, -570], [1999, 12, 31, 23, 59, 59, 999999, -1],
+             [2024, 12, 31, 12, 0, 0, 0, 840], [2024, 1, 1, 11, 59, 0, 0, 720], [1900, 3, 1, 0, 0, 0, 0, 60]]
+    vals = [{'dt': f} for f in fixed] + [g.leaf('dt') for _ in range(400 if ctx.thorough else 120)]
+    for v in vals:
+        got = _header_to_bytes(prot, native_leaf(v), DateTime)
+        add({'op': 'hdr.date', 'v': v['dt']}, cps(got))
+        ctx.cov['traces_validated_against_impl'] += 1
+        ctx.hit('hdr.date:' + ('naive' if v['dt'][7] is None else ('gmt' if v['dt'][7] == 0 else 'aware')))
+        if got != http_date(v):
+            ctx.hit('t3-fail:header-date')
+            kind = 'naive' if v['dt'][7] is None else ('gmt' if v['dt'][7] == 0 else 'aware-non-gmt')
+            ctx.finding('header-date:' + kind, 'a DateTime out-header value %s is written as %r, the HTTP date of that instant is %r'
+                        % (native_leaf(v).isoformat(), got, http_date(v)), {'op': 'hdr.date', 'v': v['dt']})
 
 
 def ascii_header(v):
@@ -1113,6 +1224,16 @@ def replay(ctx, obj):
         s0 = uncps(obj['s'])
         print(repr(s0), '->', repr(_quote(s0, safe='')), '->', repr(unquote(_quote(s0, safe=''))))
         return 0 if unquote(_quote(s0, safe='')) == s0 else 1
+    if op == 'hdr.date':
+        from spyne.protocol.http import _header_to_bytes, HttpRpc
+        from spyne import DateTime
+        v = {'dt': obj['v']}
+        got = _header_to_bytes(HttpRpc(), native_leaf(v), DateTime)
+        print('value   :', native_leaf(v).isoformat())
+        print('impl    :', got)
+        print('expected:', http_date(v))
+        print('model   :', uncps(ctx.model([{'op': 'hdr.date', 'v': obj['v']}])[0]))
+        return 0 if got == http_date(v) else 1
     if op == 'return':
         impl = Impl([fld('a', P('int'))], None, obj['kind'], obj['hdrFields'])
         ret = obj['ret']
@@ -1121,7 +1242,7 @@ def replay(ctx, obj):
         elif 'bytes' in ret:
             impl.retval = [bytes(c) for c in ret['bytes']]
         else:
-            impl.retval = int(ret['i']) if 'i' in ret else (ret['b'] if 'b' in ret else uncps(ret['s']))
+            impl.retval = native_leaf(ret)
         if obj['hdrFields']:
             h = impl.hdr_cls()
             for (n, v), hf in zip(obj['hdr']['o'], obj['hdrFields']):
